@@ -1,8 +1,13 @@
 (* C14 -- proofs about the parallel sender and about the panic barrier (Api/Par.v).
 
-     par_accepted_reply     whatever the arrival order and the number of nodes and workers: if a
-                            node has been accepted, ret holds exactly the reply of that node,
+     (all for the repaired Quit path, every interleaving of workers and main goroutine)
+     par_no_crash           no goroutine closes the closed [done]
+     par_accepted_reply     if a node has been accepted, ret holds exactly the reply of that node,
                             and if none has been, ret is untouched
+     par_quit_error_ret_untouched   an error return under QuitError comes with ret untouched, for good
+     par_quit_double_close_refuted  the Quit path as it is: a worker closes [done] after the main
+                            goroutine did (process dies; error returned with ret written), and the
+                            symmetric order (the call panics)
      par_ret_stable         ... and no later arrival changes ret or the accepted node
      par_result_node        the node the call returns is the accepted one, with that ret
      par_decode_every_refuted   the variant that decodes every reply: the call returns node 0
@@ -23,178 +28,354 @@ Variables (want_ret quit : bool) (out : nat -> pout).
 Definition acceptable (n : nat) (r : msg) : Prop :=
   out n = POk r \/ (want_ret = false /\ out n = PBadReply r).
 
-Definition pinv (s : pstate) : Prop :=
+(* the fields the invariant speaks about *)
+Definition same_core (s s' : pstate) : Prop :=
+  ps_commit s' = ps_commit s /\ ps_acc s' = ps_acc s /\ ps_decoded s' = ps_decoded s /\
+  ps_ret s' = ps_ret s /\ ps_done s' = ps_done s /\ ps_result s' = ps_result s /\
+  ps_dead s' = ps_dead s /\ ps_nbr s' = ps_nbr s.
+
+Definition kinv (s : pstate) : Prop :=
+  ps_dead s = false /\
+  (forall n, ps_commit s = Some n ->
+     ps_done s = false /\ ps_acc s = None /\ ps_decoded s = None /\
+     exists r, acceptable n r /\ (want_ret = true -> ps_ret s = Some r)) /\
   (forall n, ps_acc s = Some n ->
-     ps_done s = true /\ exists r, acceptable n r /\ (want_ret = true -> ps_ret s = Some r)) /\
-  (ps_acc s = None -> ps_ret s = None) /\
+     ps_done s = true /\ ps_commit s = None /\ ps_decoded s = Some n /\
+     exists r, acceptable n r /\ (want_ret = true -> ps_ret s = Some r)) /\
+  (ps_acc s = None -> ps_decoded s = None /\ (ps_commit s = None -> ps_ret s = None)) /\
   (want_ret = false -> ps_ret s = None) /\
-  (forall n first, ps_result s = Some (RNode n, first) -> ps_acc s = Some n /\ first = ps_ret s).
+  (forall n f, ps_result s = Some (RNode n, f) -> ps_acc s = Some n /\ f = ps_ret s) /\
+  (forall c t f, quit = true -> ps_result s = Some (RError c t, f) ->
+     ps_acc s = None /\ ps_commit s = None /\ ps_done s = true /\ f = None) /\
+  (forall f, ps_result s = Some (RCrash, f) -> ps_nbr s = 0).
 
-Lemma take_next_fields s :
-  ps_acc (take_next s) = ps_acc s /\ ps_ret (take_next s) = ps_ret s /\
-  ps_done (take_next s) = ps_done s /\ ps_result (take_next s) = ps_result s.
+Lemma kinv_same_core s s' : same_core s s' -> kinv s -> kinv s'.
 Proof.
-  unfold take_next. destruct (ps_done s) eqn:E; [rewrite E; auto|].
-  destruct (ps_queue s); simpl; rewrite ?E; auto.
+  intros [E1 [E2 [E3 [E4 [E5 [E6 [E7 E8]]]]]]]. unfold kinv. now rewrite E1, E2, E3, E4, E5, E6, E7, E8.
 Qed.
 
-Lemma pinv_take_next s : pinv s -> pinv (take_next s).
+Lemma same_core_refl s : same_core s s.
+Proof. unfold same_core. tauto. Qed.
+
+Lemma same_core_trans a b c : same_core a b -> same_core b c -> same_core a c.
 Proof.
-  destruct (take_next_fields s) as [H1 [H2 [H3 H4]]]. unfold pinv. now rewrite H1, H2, H3, H4.
+  unfold same_core. intros [A1 [A2 [A3 [A4 [A5 [A6 [A7 A8]]]]]]] [B1 [B2 [B3 [B4 [B5 [B6 [B7 B8]]]]]]].
+  repeat split; congruence.
 Qed.
 
-Lemma pinv_leave s n : pinv s -> pinv (leave s n).
-Proof. unfold pinv, leave. simpl. auto. Qed.
-
-Lemma pinv_add_err s e : pinv s -> pinv (add_err quit s e).
+Lemma same_core_take_next s : same_core s (take_next s).
 Proof.
-  intros [H1 [H2 [H3 H4]]]. unfold pinv, add_err. simpl. split; [|split; [|split]]; auto.
-  - intros n Hn. destruct (H1 n Hn) as [Hd Hr]. rewrite Hd. auto.
-  - intros n first. destruct (ps_result s) as [r|] eqn:E; [apply H4|].
-    destruct (quit || _); [|discriminate].
-    destruct (ps_errs s ++ [e])%list as [|[c t] l]; [discriminate|]. destruct quit; discriminate.
+  unfold take_next. destruct (ps_done s); [apply same_core_refl|].
+  destruct (ps_queue s); [apply same_core_refl|]. unfold same_core, upd_work. simpl. tauto.
 Qed.
 
-Lemma no_node_result s : pinv s -> ps_acc s = None ->
-  forall m f, ps_result s <> Some (RNode m, f).
-Proof. intros [_ [_ [_ H4]]] Ha m f Hr. destruct (H4 m f Hr). congruence. Qed.
+Lemma same_core_leave s n : same_core s (leave s n).
+Proof. unfold same_core, leave, upd_work. simpl. tauto. Qed.
 
-Lemma not_done_no_acc s : pinv s -> ps_done s = false -> ps_acc s = None.
+Lemma same_core_push_err s e : same_core s (push_err s e).
+Proof. unfold same_core, push_err. simpl. tauto. Qed.
+
+Lemma acc_of_decoded s n : kinv s -> ps_decoded s = Some n -> ps_acc s = Some n.
 Proof.
-  intros [H1 _] Hd. destruct (ps_acc s) as [m|] eqn:Ea; [|reflexivity].
-  destruct (H1 m eq_refl) as [Hd' _]. congruence.
+  intros [_ [_ [K3 [K4 _]]]] Hd. destruct (ps_acc s) as [m|] eqn:Ea.
+  - destruct (K3 m eq_refl) as [_ [_ [Hm _]]]. congruence.
+  - destruct (K4 eq_refl) as [Hn _]. congruence.
 Qed.
 
-Lemma accept_pinv s n r :
-  pinv s -> ps_done s = false -> acceptable n r ->
-  pinv (accept (if want_ret then set_ret s r else s) n).
+(* a worker takes the mutex with [done] open: it decodes and is about to close [done] *)
+Lemma kinv_enter n r (s1 : pstate) :
+  kinv s1 -> ps_commit s1 = None -> ps_done s1 = false -> acceptable n r ->
+  kinv (set_commit (if want_ret then set_ret s1 r else s1) (Some n)).
 Proof.
-  intros Hs Hd Hacc. pose proof (not_done_no_acc s Hs Hd) as Ha.
-  pose proof (no_node_result s Hs Ha) as Hnr. destruct Hs as [H1 [H2 [H3 H4]]].
-  unfold pinv. destruct want_ret eqn:Ew; unfold accept, set_ret; cbn [ps_acc ps_ret ps_done ps_result].
-  - split; [|split; [|split]].
-    + intros m [= <-]. split; [reflexivity|]. exists r. auto.
-    + discriminate.
-    + discriminate.
-    + intros m f. destruct (ps_result s) as [x|] eqn:Er.
-      * intros [= ->]. exfalso. now apply (Hnr m f).
-      * intros [= <- <-]. auto.
-  - split; [|split; [|split]].
-    + intros m [= <-]. split; [reflexivity|]. exists r. split; [exact Hacc|discriminate].
-    + discriminate.
-    + intros _. now apply H3.
-    + intros m f. destruct (ps_result s) as [x|] eqn:Er.
-      * intros [= ->]. exfalso. now apply (Hnr m f).
-      * intros [= <- <-]. auto.
+  intros [K1 [K2 [K3 [K4 [K5 [K6 [K7 K8]]]]]]] Hc Hd Hacc.
+  assert (ps_acc s1 = None) as Ha.
+  { destruct (ps_acc s1) as [m|] eqn:E; [|reflexivity]. destruct (K3 m eq_refl) as [H _]. congruence. }
+  destruct (K4 Ha) as [Hdec Hret].
+  unfold kinv. destruct want_ret eqn:Ew; unfold set_commit, set_ret; cbn [ps_dead ps_commit ps_done ps_acc ps_decoded ps_ret ps_result ps_nbr].
+  - split; [exact K1|]. split.
+    { intros m [= <-]. repeat split; auto. exists r. auto. }
+    split; [intros m Hm; congruence|]. split; [intros _; split; [exact Hdec|discriminate]|].
+    split; [discriminate|]. split.
+    { intros m f Hr. destruct (K6 m f Hr). congruence. }
+    split; [|exact K8]. intros c t f Hq Hr. destruct (K7 c t f Hq Hr) as [_ [_ [H _]]]. congruence.
+  - split; [exact K1|]. split.
+    { intros m [= <-]. repeat split; auto. exists r. split; [exact Hacc|discriminate]. }
+    split; [intros m Hm; congruence|]. split; [intros _; split; [exact Hdec|discriminate]|].
+    split; [exact K5|]. split.
+    { intros m f Hr. destruct (K6 m f Hr). congruence. }
+    split; [|exact K8]. intros c t f Hq Hr. destruct (K7 c t f Hq Hr) as [_ [_ [H _]]]. congruence.
 Qed.
 
-Lemma complete_pinv s n : pinv s -> pinv (complete false want_ret quit out s n).
+Lemma pstep_kinv s a : kinv s -> kinv (pstep false true want_ret quit out s a).
 Proof.
-  intro Hs. unfold complete. destruct (negb (mem_nat n (ps_infl s))); [exact Hs|].
-  pose proof (pinv_leave s n Hs) as Hl. generalize dependent (leave s n). intros s1 Hl.
-  destruct (out n) as [r|r|c t] eqn:Eo.
-  - cbn [andb]. destruct (ps_done s1) eqn:Ed; [now apply pinv_take_next|].
-    apply accept_pinv; auto. now left.
-  - destruct want_ret eqn:Ew.
-    + destruct (ps_done s1); apply pinv_take_next; [exact Hl|now apply pinv_add_err].
-    + destruct (ps_done s1) eqn:Ed; [now apply pinv_take_next|].
-      pose proof (accept_pinv s1 n r Hl Ed) as H. rewrite Ew in H. apply H. right. auto.
-  - apply pinv_take_next. now apply pinv_add_err.
+  intro Hs. pose proof Hs as [K1 [K2 [K3 [K4 [K5 [K6 [K7 K8]]]]]]].
+  unfold pstep. rewrite K1. destruct a as [n| | |].
+  - (* a Send returns *)
+    destruct (negb (mem_nat n (ps_infl s))); [exact Hs|].
+    destruct (out n) as [r|r|c t] eqn:Eo.
+    + destruct (ps_commit s) as [m|] eqn:Ec; [exact Hs|]. cbn [is_none negb andb].
+      pose proof (kinv_same_core _ _ (same_core_leave s n) Hs) as Hl.
+      assert (ps_commit (leave s n) = None) as Hc by exact Ec.
+      destruct (ps_done (leave s n)) eqn:Ed.
+      * eapply kinv_same_core; [apply same_core_take_next|exact Hl].
+      * apply kinv_enter; auto. now left.
+    + destruct (ps_commit s) as [m|] eqn:Ec; [exact Hs|]. cbn [is_none negb].
+      pose proof (kinv_same_core _ _ (same_core_leave s n) Hs) as Hl.
+      assert (ps_commit (leave s n) = None) as Hc by exact Ec.
+      destruct want_ret eqn:Ew.
+      * destruct (ps_done (leave s n)).
+        -- eapply kinv_same_core; [apply same_core_take_next|exact Hl].
+        -- eapply kinv_same_core; [|exact Hl].
+           eapply same_core_trans; [apply same_core_push_err|apply same_core_take_next].
+      * destruct (ps_done (leave s n)) eqn:Ed.
+        -- eapply kinv_same_core; [apply same_core_take_next|exact Hl].
+        -- pose proof (kinv_enter n r (leave s n) Hl Hc Ed) as H. rewrite Ew in H. apply H. right. auto.
+    + eapply kinv_same_core; [|exact Hs].
+      eapply same_core_trans; [apply same_core_leave|].
+      eapply same_core_trans; [apply same_core_push_err|apply same_core_take_next].
+  - (* the worker that holds the mutex closes [done] *)
+    destruct (ps_commit s) as [n|] eqn:Ec; [|exact Hs].
+    destruct (K2 n eq_refl) as [Hd [Ha [Hdec [r [Hr1 Hr2]]]]].
+    unfold kinv, commit; cbn [ps_dead ps_commit ps_done ps_acc ps_decoded ps_ret ps_result ps_nbr].
+    split; [now rewrite K1, Hd|]. split; [discriminate|]. split.
+    { intros m [= <-]. repeat split; auto. exists r. auto. }
+    split; [discriminate|]. split; [exact K5|]. split.
+    { intros m f Hres. destruct (K6 m f Hres). congruence. }
+    split; [|exact K8]. intros c t f Hq Hres. destruct (K7 c t f Hq Hres) as [_ [H _]]. congruence.
+  - (* the main goroutine takes an error *)
+    destruct (ps_result s) as [res|] eqn:Er; [exact Hs|].
+    destruct (ps_pending s) as [|e rest] eqn:Ep; [exact Hs|].
+    destruct quit eqn:Eq.
+    + destruct (ps_commit s) as [m|] eqn:Ec; [exact Hs|]. cbn [is_none negb].
+      destruct (ps_decoded s) as [n|] eqn:Edec.
+      * pose proof (acc_of_decoded s n Hs Edec) as Ha. destruct (K3 n Ha) as [Hd _].
+        unfold kinv, main_state; cbn [ps_dead ps_commit ps_done ps_acc ps_decoded ps_ret ps_result ps_nbr].
+        rewrite Ec, Edec. split; [exact K1|]. split; [discriminate|]. split.
+        { intros m Hm. destruct (K3 m Hm) as [H1 [H2 [H3 H4]]]. repeat split; try congruence; exact H4. }
+        split; [intro H; congruence|]. split; [exact K5|]. split.
+        { intros m f [= <- <-]. auto. }
+        split; [intros c t f _ H; discriminate|intros f H; discriminate].
+      * assert (ps_acc s = None) as Ha.
+        { destruct (ps_acc s) as [m|] eqn:E; [|reflexivity]. destruct (K3 m eq_refl) as [_ [_ [H _]]]. congruence. }
+        destruct (K4 Ha) as [_ Hret]. specialize (Hret eq_refl).
+        unfold kinv, main_state; cbn [ps_dead ps_commit ps_done ps_acc ps_decoded ps_ret ps_result ps_nbr].
+        rewrite Ec, Edec, Ha, Hret. split; [exact K1|]. split; [discriminate|]. split; [discriminate|].
+        split; [auto|]. split; [auto|]. split; [intros m f H; discriminate|].
+        split; [intros c t f _ [= _ _ <-]; auto|intros f H; discriminate].
+    + unfold kinv, main_state; cbn [ps_dead ps_commit ps_done ps_acc ps_decoded ps_ret ps_result ps_nbr].
+      split; [exact K1|]. split; [exact K2|]. split; [exact K3|]. split; [exact K4|]. split; [exact K5|].
+      destruct (Nat.eqb _ _); [|repeat split; intros; congruence].
+      destruct (ps_errs s ++ [e])%list as [|[c t] l]; [repeat split; intros; congruence|].
+      split; [intros m f H; discriminate H|]. split; [intros c' t' f H; congruence|intros f H; discriminate H].
+  - (* the main goroutine takes the accepted node *)
+    destruct (ps_result s) as [res|] eqn:Er; [exact Hs|].
+    destruct (ps_decoded s) as [n|] eqn:Edec; [|exact Hs].
+    pose proof (acc_of_decoded s n Hs Edec) as Ha.
+    unfold kinv, main_state; cbn [ps_dead ps_commit ps_done ps_acc ps_decoded ps_ret ps_result ps_nbr].
+    rewrite Edec. split; [exact K1|]. split; [exact K2|]. split.
+    { intros m Hm. destruct (K3 m Hm) as [H1 [H2 [H3 H4]]]. repeat split; try congruence; exact H4. }
+    split; [intro H; congruence|]. split; [exact K5|]. split.
+    { intros m f [= <- <-]. auto. }
+    split; [intros c t f _ H; discriminate|intros f H; discriminate].
 Qed.
 
-Lemma prun_pinv arrivals : forall s, pinv s -> pinv (prun false want_ret quit out s arrivals).
+Lemma prun_kinv acts : forall s, kinv s -> kinv (prun false true want_ret quit out s acts).
 Proof.
-  induction arrivals as [|n l IH]; intros s Hs; [exact Hs|]. simpl. apply IH. now apply complete_pinv.
+  induction acts as [|a l IH]; intros s Hs; [exact Hs|]. simpl. apply IH. now apply pstep_kinv.
 Qed.
 
-Lemma pinit_pinv par chosen : pinv (pinit par chosen).
+Lemma pinit_kinv par chosen : kinv (pinit par chosen).
 Proof.
-  unfold pinv, pinit. simpl. split; [discriminate|]. split; [auto|]. split; [auto|].
-  intros n f. destruct chosen; discriminate.
+  unfold kinv, pinit. cbn [ps_dead ps_commit ps_done ps_acc ps_decoded ps_ret ps_result ps_nbr].
+  split; [reflexivity|]. split; [discriminate|]. split; [discriminate|]. split; [auto|]. split; [auto|].
+  destruct chosen as [|x l]; (split; [intros; discriminate|]); (split; [intros; discriminate|]).
+  - intros f _. reflexivity.
+  - intros; discriminate.
 Qed.
 
 (* once a node is accepted nothing changes it, nor ret *)
-Lemma complete_stable s n m :
-  pinv s -> ps_acc s = Some m ->
-  ps_acc (complete false want_ret quit out s n) = Some m /\
-  ps_ret (complete false want_ret quit out s n) = ps_ret s.
+Lemma pstep_stable_acc s a m :
+  kinv s -> ps_acc s = Some m ->
+  ps_acc (pstep false true want_ret quit out s a) = Some m /\
+  ps_ret (pstep false true want_ret quit out s a) = ps_ret s.
 Proof.
-  intros [H1 _] Hm. destruct (H1 m Hm) as [Hd _]. unfold complete.
-  destruct (negb (mem_nat n (ps_infl s))); [auto|].
-  assert (ps_done (leave s n) = true) as Hd1 by exact Hd.
-  destruct (out n) as [r|r|c t].
-  - cbn [andb]. rewrite Hd1. destruct (take_next_fields (leave s n)) as [E1 [E2 _]]. rewrite E1, E2. auto.
-  - destruct want_ret; rewrite Hd1; destruct (take_next_fields (leave s n)) as [E1 [E2 _]]; rewrite E1, E2; auto.
-  - destruct (take_next_fields (add_err quit (leave s n) (c, t))) as [E1 [E2 _]]. rewrite E1, E2. auto.
+  intros Hs Hm. pose proof Hs as [K1 [_ [K3 _]]]. destruct (K3 m Hm) as [Hd [Hc _]].
+  unfold pstep. rewrite K1. destruct a as [n| | |].
+  - destruct (negb (mem_nat n (ps_infl s))); [auto|].
+    assert (forall x, same_core s x -> ps_acc x = Some m /\ ps_ret x = ps_ret s) as Hfin.
+    { intros x [_ [A [_ [B _]]]]. rewrite A, B. auto. }
+    destruct (out n) as [r|r|c t].
+    + rewrite Hc. cbn [is_none negb andb]. assert (ps_done (leave s n) = true) as -> by exact Hd.
+      apply Hfin. eapply same_core_trans; [apply same_core_leave|apply same_core_take_next].
+    + rewrite Hc. cbn [is_none negb]. assert (ps_done (leave s n) = true) as -> by exact Hd.
+      destruct want_ret; apply Hfin; (eapply same_core_trans; [apply same_core_leave|apply same_core_take_next]).
+    + apply Hfin. eapply same_core_trans; [apply same_core_leave|].
+      eapply same_core_trans; [apply same_core_push_err|apply same_core_take_next].
+  - rewrite Hc. auto.
+  - destruct (ps_result s); [auto|]. destruct (ps_pending s); [auto|].
+    destruct quit; [|auto]. rewrite Hc. cbn [is_none negb]. destruct (ps_decoded s); auto.
+  - destruct (ps_result s); [auto|]. destruct (ps_decoded s); auto.
+Qed.
+
+(* a call that has returned an error under QuitError: nothing is accepted afterwards *)
+Definition closed_empty (s : pstate) : Prop :=
+  ps_acc s = None /\ ps_commit s = None /\ ps_done s = true /\ ps_ret s = None /\ ps_result s <> None.
+
+Lemma pstep_closed_empty s a : ps_dead s = false -> closed_empty s ->
+  closed_empty (pstep false true want_ret quit out s a) /\
+  ps_result (pstep false true want_ret quit out s a) = ps_result s.
+Proof.
+  intros K1 [Ha [Hc [Hd [Hr Hres]]]]. unfold pstep. rewrite K1.
+  assert (forall x, same_core s x -> closed_empty x /\ ps_result x = ps_result s) as Hcore.
+  { intros x [E1 [E2 [E3 [E4 [E5 [E6 _]]]]]]. unfold closed_empty. rewrite E1, E2, E4, E5, E6. tauto. }
+  destruct a as [n| | |].
+  - destruct (negb (mem_nat n (ps_infl s))); [apply Hcore, same_core_refl|].
+    destruct (out n) as [r|r|c t].
+    + rewrite Hc. cbn [is_none negb andb]. assert (ps_done (leave s n) = true) as -> by exact Hd.
+      apply Hcore. eapply same_core_trans; [apply same_core_leave|apply same_core_take_next].
+    + rewrite Hc. cbn [is_none negb]. assert (ps_done (leave s n) = true) as -> by exact Hd.
+      destruct want_ret; apply Hcore; (eapply same_core_trans; [apply same_core_leave|apply same_core_take_next]).
+    + apply Hcore. eapply same_core_trans; [apply same_core_leave|].
+      eapply same_core_trans; [apply same_core_push_err|apply same_core_take_next].
+  - rewrite Hc. apply Hcore, same_core_refl.
+  - destruct (ps_result s) eqn:E; [|contradiction].
+    split; [|congruence]. unfold closed_empty. rewrite E. repeat split; auto.
+  - destruct (ps_result s) eqn:E; [|contradiction].
+    split; [|congruence]. unfold closed_empty. rewrite E. repeat split; auto.
 Qed.
 
 End Par.
 
-(* Every arrival order, any number of nodes and workers, any option set (they only fix
-   the initial queue): an accepted node's reply is what ret holds, ... *)
-Theorem par_accepted_reply want_ret quit out par chosen arrivals n :
-  let s := prun false want_ret quit out (pinit par chosen) arrivals in
+(* The repaired Quit path ([fix_quit = true]), every interleaving of the workers' and the main
+   goroutine's steps, any number of nodes and workers, QuitError or not, nodes of any
+   behaviour: no goroutine closes a closed channel, ... *)
+Theorem par_no_crash want_ret quit out par chosen acts :
+  let s := prun false true want_ret quit out (pinit par chosen) acts in
+  ps_dead s = false /\ (forall f, ps_result s = Some (RCrash, f) -> ps_nbr s = 0).
+Proof.
+  intros s. destruct (prun_kinv want_ret quit out acts _ (pinit_kinv want_ret quit out par chosen)) as [K1 [_ [_ [_ [_ [_ [_ K8]]]]]]].
+  split; [exact K1|exact K8].
+Qed.
+
+(* ... an accepted node's reply is what ret holds, ... *)
+Theorem par_accepted_reply want_ret quit out par chosen acts n :
+  let s := prun false true want_ret quit out (pinit par chosen) acts in
   ps_acc s = Some n ->
   exists r, acceptable want_ret out n r /\ (want_ret = true -> ps_ret s = Some r).
 Proof.
-  intros s Hn. destruct (prun_pinv want_ret quit out arrivals _ (pinit_pinv want_ret out par chosen)) as [H1 _].
-  destruct (H1 n Hn) as [_ H]. exact H.
+  intros s Hn. destruct (prun_kinv want_ret quit out acts _ (pinit_kinv want_ret quit out par chosen)) as [_ [_ [K3 _]]].
+  destruct (K3 n Hn) as [_ [_ [_ H]]]. exact H.
 Qed.
 
-Theorem par_untouched_without_accept want_ret quit out par chosen arrivals :
-  let s := prun false want_ret quit out (pinit par chosen) arrivals in
-  ps_acc s = None -> ps_ret s = None.
+(* ... while no node is accepted and no worker is about to accept, ret is untouched, ... *)
+Theorem par_untouched_without_accept want_ret quit out par chosen acts :
+  let s := prun false true want_ret quit out (pinit par chosen) acts in
+  ps_acc s = None -> ps_commit s = None -> ps_ret s = None.
 Proof.
-  intros s. destruct (prun_pinv want_ret quit out arrivals _ (pinit_pinv want_ret out par chosen)) as [_ [H2 _]].
-  exact H2.
+  intros s Ha Hc. destruct (prun_kinv want_ret quit out acts _ (pinit_kinv want_ret quit out par chosen)) as [_ [_ [_ [K4 _]]]].
+  destruct (K4 Ha) as [_ H]. auto.
 Qed.
 
-(* ... later arrivals are dropped: neither the accepted node nor ret changes, ... *)
-Theorem par_ret_stable want_ret quit out par chosen arrivals later n :
-  let s := prun false want_ret quit out (pinit par chosen) arrivals in
+(* ... later arrivals are dropped: neither the accepted node nor ret changes (also after the
+   call has returned), ... *)
+Theorem par_ret_stable want_ret quit out par chosen acts later n :
+  let s := prun false true want_ret quit out (pinit par chosen) acts in
   ps_acc s = Some n ->
-  ps_acc (prun false want_ret quit out s later) = Some n /\
-  ps_ret (prun false want_ret quit out s later) = ps_ret s.
+  ps_acc (prun false true want_ret quit out s later) = Some n /\
+  ps_ret (prun false true want_ret quit out s later) = ps_ret s.
 Proof.
-  intros s. assert (pinv want_ret out s) as Hs by (apply prun_pinv, pinit_pinv).
-  clearbody s. revert s Hs. induction later as [|m l IH]; intros s Hs Hn; [auto|].
-  simpl. destruct (complete_stable want_ret quit out s m n Hs Hn) as [E1 E2].
-  destruct (IH _ (complete_pinv want_ret quit out s m Hs) E1) as [F1 F2]. rewrite F1, F2. auto.
+  intros s. assert (kinv want_ret quit out s) as Hs by (apply prun_kinv, pinit_kinv).
+  clearbody s. revert s Hs. induction later as [|a l IH]; intros s Hs Hn; [auto|].
+  simpl. destruct (pstep_stable_acc want_ret quit out s a n Hs Hn) as [E1 E2].
+  destruct (IH _ (pstep_kinv want_ret quit out s a Hs) E1) as [F1 F2]. rewrite F1, F2. auto.
 Qed.
 
-(* ... and the node the call returns is the accepted one, ret at the return being its reply *)
-Theorem par_result_node want_ret quit out par chosen arrivals n first :
-  let s := prun false want_ret quit out (pinit par chosen) arrivals in
+(* ... the node the call returns is the accepted one, ret at the return being its reply, ... *)
+Theorem par_result_node want_ret quit out par chosen acts n first :
+  let s := prun false true want_ret quit out (pinit par chosen) acts in
   ps_result s = Some (RNode n, first) ->
   ps_acc s = Some n /\ first = ps_ret s /\
   exists r, acceptable want_ret out n r /\ (want_ret = true -> first = Some r).
 Proof.
-  intros s Hr. destruct (prun_pinv want_ret quit out arrivals _ (pinit_pinv want_ret out par chosen)) as [H1 [_ [_ H4]]].
-  destruct (H4 n first Hr) as [Ha Hf]. split; [exact Ha|]. split; [exact Hf|].
-  destruct (H1 n Ha) as [_ [r [Hr1 Hr2]]]. exists r. split; [exact Hr1|]. intro Hw. rewrite Hf. auto.
+  intros s Hr. destruct (prun_kinv want_ret quit out acts _ (pinit_kinv want_ret quit out par chosen)) as [_ [_ [K3 [_ [_ [K6 _]]]]]].
+  destruct (K6 n first Hr) as [Ha Hf]. split; [exact Ha|]. split; [exact Hf|].
+  destruct (K3 n Ha) as [_ [_ [_ [r [Hr1 Hr2]]]]]. exists r. split; [exact Hr1|]. intro Hw. rewrite Hf. auto.
 Qed.
 
-(* the driver used by the correspondence check is one of these executions *)
-Lemma drive_is_prun fuel de want_ret quit out prio : forall s,
-  exists arrivals, drive fuel de want_ret quit out prio s = prun de want_ret quit out s arrivals.
+Lemma closed_empty_run want_ret quit out later : forall s,
+  kinv want_ret quit out s -> closed_empty s ->
+  ps_ret (prun false true want_ret quit out s later) = None /\
+  ps_result (prun false true want_ret quit out s later) = ps_result s.
 Proof.
-  induction fuel as [|f IH]; intro s; [exists []; reflexivity|]. simpl.
-  destruct (best prio (ps_infl s)) as [n|]; [|exists []; reflexivity].
-  destruct (IH (complete de want_ret quit out s n)) as [l Hl]. exists (n :: l). exact Hl.
+  induction later as [|a l IH]; intros s Hs Hce.
+  - destruct Hce as [_ [_ [_ [H _]]]]. auto.
+  - simpl. pose proof Hs as [K1 _].
+    destruct (pstep_closed_empty want_ret quit out s a K1 Hce) as [H1 H2].
+    destruct (IH _ (pstep_kinv want_ret quit out s a Hs) H1) as [F1 F2]. split; [exact F1|congruence].
 Qed.
+
+(* ... and a call that returns an error under QuitError has not written ret, and nothing
+   writes it afterwards. *)
+Theorem par_quit_error_ret_untouched want_ret out par chosen acts later c t first :
+  let s := prun false true want_ret true out (pinit par chosen) acts in
+  ps_result s = Some (RError c t, first) ->
+  first = None /\
+  ps_ret (prun false true want_ret true out s later) = None /\
+  ps_result (prun false true want_ret true out s later) = Some (RError c t, first).
+Proof.
+  intros s Hr. assert (kinv want_ret true out s) as Hs by (apply prun_kinv, pinit_kinv).
+  pose proof Hs as [K1 [_ [_ [K4 [_ [_ [K7 _]]]]]]].
+  destruct (K7 c t first eq_refl Hr) as [Ha [Hc [Hd Hf]]]. split; [exact Hf|].
+  destruct (K4 Ha) as [_ Hret]. specialize (Hret Hc).
+  assert (closed_empty s) as Hce. { unfold closed_empty. repeat split; auto. congruence. }
+  destruct (closed_empty_run want_ret true out later s Hs Hce) as [F1 F2]. split; [exact F1|congruence].
+Qed.
+
+(* the schedule the correspondence check derives from the harness's release order is one of
+   these executions *)
+Lemma drive_is_prun fuel de fq want_ret quit out prio hold s :
+  exists acts, drive fuel de fq want_ret quit out prio hold s = prun de fq want_ret quit out s acts.
+Proof. eexists. reflexivity. Qed.
 
 Definition two_nodes : nat -> pout :=
   node_out [NOk; NOk] true (Msg "q" 0 true "").
 
 (* the variant that decodes every reply: node 0 is returned, ret holds node 1's reply *)
 Theorem par_decode_every_refuted :
-  let s := prun true true false two_nodes (pinit 2 [0; 1]) [0; 1] in
+  let s := prun true true true false two_nodes (pinit 2 [0; 1]) [ACheck 0; ACommit; AMainDecoded; ACheck 1] in
   ps_result s = Some (RNode 0, Some (Msg "q" 0 true "")) /\ ps_ret s = Some (Msg "q" 1 true "").
 Proof. split; vm_compute; reflexivity. Qed.
 
-Example par_same_arrivals_as_is :
-  let s := prun false true false two_nodes (pinit 2 [0; 1]) [0; 1] in
+Example par_same_steps_as_is :
+  let s := prun false true true false two_nodes (pinit 2 [0; 1]) [ACheck 0; ACommit; AMainDecoded; ACheck 1] in
   ps_result s = Some (RNode 0, Some (Msg "q" 0 true "")) /\ ps_ret s = Some (Msg "q" 0 true "").
+Proof. split; vm_compute; reflexivity. Qed.
+
+(* ---------- the Quit path as it is: both closes of [done] can happen ------------------------ *)
+
+Definition fail_ok : nat -> pout := node_out [NFail; NOk] true (Msg "q" 0 true "").
+
+(* node 1 answers, its worker passes the [done] check and decodes; node 0 fails; the main
+   goroutine (QuitError) closes [done] and returns the error; the worker closes [done]
+   again: the process dies -- and the call has returned an error with ret written *)
+Theorem par_quit_double_close_refuted :
+  let s := prun false false true true fail_ok (pinit 2 [0; 1]) [ACheck 1; ACheck 0; AMainErr; ACommit] in
+  ps_dead s = true /\
+  ps_result s = Some (RError EHandler "node-fails", Some (Msg "q" 1 true "")).
+Proof. split; vm_compute; reflexivity. Qed.
+
+(* the other order: the worker closes [done] first, the main goroutine takes the error
+   and closes it again: the call panics in the caller's goroutine *)
+Theorem par_quit_double_close_main_refuted :
+  let s := prun false false true true fail_ok (pinit 2 [0; 1]) [ACheck 1; ACommit; ACheck 0; AMainErr] in
+  ps_result s = Some (RCrash, Some (Msg "q" 1 true "")).
+Proof. vm_compute. reflexivity. Qed.
+
+(* the same steps with the repair: the worker holds the mutex, so the main goroutine's
+   step has no effect until the worker has closed [done]; then it returns the accepted node *)
+Example par_quit_repaired_same_steps :
+  let s := prun false true true true fail_ok (pinit 2 [0; 1]) [ACheck 1; ACheck 0; AMainErr; ACommit; AMainErr] in
+  ps_dead s = false /\ ps_result s = Some (RNode 1, Some (Msg "q" 1 true "")).
 Proof. split; vm_compute; reflexivity. Qed.
 
 (* ---------- the panic barrier, every kind of handler -------------------------------------- *)
